@@ -796,13 +796,47 @@ func runC04(c *Ctx) {
 	if ds != nil {
 		p := ix.proverFor(ds)
 		sF, wF := c.Field(ws, "S"), c.Field(ws, "W")
+		// the per-line records may be filled by a helper handed the slice and the lines: its parameters are read
+		// as the values passed at its (single) call from the callback
+		dsFns := pkgReach(ds, 1)
+		inDs := map[*ssa.Function]bool{}
+		bind := map[ssa.Value]ssa.Value{}
+		for _, hf := range dsFns {
+			inDs[hf] = true
+			if hf == ds {
+				continue
+			}
+			ncalls := 0
+			eachInstr(ds, func(ci ssa.Instruction) {
+				if staticCallee(ci) == hf {
+					ncalls++
+					for k, a := range callCommon(ci).Args {
+						if k < len(hf.Params) {
+							bind[hf.Params[k]] = a
+						}
+					}
+				}
+			})
+			if ncalls != 1 {
+				for _, par := range hf.Params {
+					delete(bind, par)
+				}
+			}
+		}
+		res := func(v ssa.Value) ssa.Value {
+			if a, ok := bind[v]; ok {
+				return a
+			}
+			return v
+		}
 		okS := false
 		var linesV ssa.Value
 		for _, fs := range c.StoresTo(sF) {
-			if fs.Fn != ds {
+			if !inDs[fs.Fn] {
 				continue
 			}
-			sl, idx := sectionOfAny(fs.St.Val)
+			slLocal, idx := sectionOfAny(fs.St.Val)
+			sl := res(slLocal)
 			if call, isCall := sl.(*ssa.Call); isCall && call.Call.StaticCallee() != nil && call.Call.StaticCallee().Name() == "Lines" {
 				linesV = sl
 				// stored into linesWidths[idx]
@@ -810,7 +844,7 @@ func runC04(c *Ctx) {
 					if u, isU := rr.(*ssa.UnOp); isU {
 						for _, r3 := range referrersOf(u) {
 							if st, isSt := r3.(*ssa.Store); isSt && st.Val == ssa.Value(u) {
-								if ia, isIA := st.Addr.(*ssa.IndexAddr); isIA && ia.Index == idx && isFullRangeIndex(c, ds, idx, sl) {
+								if ia, isIA := st.Addr.(*ssa.IndexAddr); isIA && ia.Index == idx && isFullRangeIndex(c, fs.Fn, idx, slLocal) {
 									okS = true
 								}
 							}
@@ -840,20 +874,30 @@ func runC04(c *Ctx) {
 		// W uses the declared width for a single-line item that declares one
 		okW, whyW := false, "the emit width never takes the declared width into account"
 		for _, fs := range c.StoresTo(wF) {
-			if fs.Fn != ds {
+			if !inDs[fs.Fn] {
 				continue
 			}
 			phi, isPhi := fs.St.Val.(*ssa.Phi)
 			if !isPhi {
 				continue
 			}
+			pf := ix.proverFor(fs.Fn)
 			for k, e := range phi.Edges {
-				if !isDeclaredWidth(e) {
+				if !isDeclaredWidth(res(e)) {
 					continue
 				}
 				pred := phi.Block().Preds[k]
 				declares, single := false, false
-				for _, cf := range p.edgeConds(pred, phi.Block()) {
+				// the conditions of the edge; a condition that is a parameter of the helper stands for the value passed
+				var conds []condFact
+				for _, cf := range pf.edgeConds(pred, phi.Block()) {
+					if a, isBound := bind[cf.Cond]; isBound {
+						conds = append(conds, expandConds([]condFact{{a, cf.Val, cf.If}})...)
+					} else {
+						conds = append(conds, cf)
+					}
+				}
+				for _, cf := range conds {
 					if ex, ok := cf.Cond.(*ssa.Extract); ok && cf.Val {
 						if ta, ok := ex.Tuple.(*ssa.TypeAssert); ok && isNamed(ta.AssertedType, modPath, "TerminalCellWidther") {
 							declares = true
